@@ -13,6 +13,7 @@ import ast
 import string
 
 from ..analysis import PROPERTY_TEXT, self_attr  # noqa: F401
+from ..cfg import reachable_without_edges
 from ..index import AnalysisError, norm
 from ..report import rule
 from ..resolve import walk_own
@@ -267,3 +268,248 @@ def r18f(R):
                     'raises' % (m.short, base.short, ', '.join(sorted(stores))))
     if seen < 2:
         raise AnalysisError('snapshot: only %d preparing overrides found' % seen)
+
+
+# ------------------------------------------------------------------ R06.o
+PARSE = 'bardolph.parser.parse'
+LOOP = 'bardolph.parser.loop_parser'
+
+
+def _declares(A, f, c):
+    return 'Context.add_variable' in A.callee_names(f, c)
+
+
+def _parses_value(c):
+    return isinstance(c.func, ast.Attribute) and c.func.attr in ('rvalue', '_rvalue')
+
+
+def _order_violation(A, root, scope):
+    """Is there an execution of `root` (calls into `scope` functions followed)
+    in which a declaration precedes the parsing of a value? -> (function,
+    declaring call, value call) or None."""
+    memo = {}
+
+    def summary(g, stack=()):
+        """(may declare, may parse a value, violation) for g"""
+        if g in memo:
+            return memo[g]
+        if g in stack:
+            return (False, False, None)
+        memo[g] = (False, False, None)
+        cfg = A.cfg(g)
+        firsts, seconds = [], []
+        viol = None
+        for n in cfg.nodes:
+            seen_first = None
+            for c in n.calls():
+                f1 = _declares(A, g, c)
+                f2 = _parses_value(c)
+                for h in A.callees(g, c):
+                    if h in scope and h is not g:
+                        d, v, w = summary(h, stack + (g,))
+                        f1, f2 = f1 or d, f2 or v
+                        if w and viol is None:
+                            viol = w
+                if f2 and seen_first is not None and viol is None:
+                    viol = (g, seen_first, c)
+                if f1:
+                    firsts.append((n, c))
+                    seen_first = seen_first or c
+                if f2:
+                    seconds.append((n, c))
+        if viol is None:
+            for n, c in firsts:
+                after = set(x.id for x in cfg.reachable_from(
+                    [m for m, _l in n.succs]))
+                for m, c2 in seconds:
+                    if m.id in after:
+                        viol = (g, c, c2)
+                        break
+                if viol:
+                    break
+        memo[g] = (bool(firsts), bool(seconds), viol)
+        return memo[g]
+    return summary(root)
+
+
+@rule('R06.o', ('C06', 'C04'), 'a variable is declared only after the '
+      'expressions that give it its first value have been compiled',
+      floor=2,
+      decides='using an undefined name is rejected - also when the name is '
+              'the very variable the statement is about to create '
+              '(`assign x {x + 1}`, `repeat with i from i to 5`)')
+def r06o(R):
+    A = R.A
+    asg = A.func(PARSE, 'Parser._assignment')
+    lp = A.cls(LOOP, 'LoopParser')
+    pre = lp.methods['_pre_loop']
+    scope_loop = set(m for c in lp.mro() for m in c.methods.values()
+                     if m.name not in ('_loop_body', 'repeat', '_loop_post'))
+    for root, scope, what in ((asg, {asg}, 'the assigned variable'),
+                              (pre, scope_loop, 'the loop variables')):
+        d, v, viol = _order_violation(A, root, scope)
+        if not (d and v):
+            raise AnalysisError('%s: declaration / value parsing not found '
+                                '(declares=%s, parses=%s)' % (root.short, d, v))
+        R.check(root, '%s: every value is parsed before %s is declared'
+                % (root.short, what), viol is None,
+                'in %s the name is entered into the symbol table (%s) before '
+                'a value is parsed (%s): an expression that mentions the '
+                'not-yet-existing variable compiles, and the VM then pushes '
+                'None ("pushing None onto eval stack") and stops' % (
+                    viol[0].short if viol else '', norm(viol[1])[:50] if viol else '',
+                    norm(viol[2])[:50] if viol else ''))
+
+
+# ------------------------------------------------------------------ R09.h
+CLOCK = 'bardolph.lib.clock'
+
+
+@rule('R09.h', ('C09', 'C11'), 'the clock never blocks on its tick event '
+      'without having seen the run flag set', floor=1,
+      decides='a delay or time-of-day wait entered after the clock was '
+              'stopped returns at once: the stopped script ends and the next '
+              'job starts (stop() wakes nobody; only ticks do, and the ticker '
+              'ends with the flag)')
+def r09h(R):
+    A = R.A
+    clock = A.cls(CLOCK, 'Clock')
+    stop = clock.methods['stop']
+    flags = [t.attr for n in walk_own(stop.node) if isinstance(n, ast.Assign)
+             and isinstance(n.value, ast.Constant) and n.value.value is False
+             for t in n.targets if self_attr(t)]
+    if len(flags) != 1:
+        raise AnalysisError('Clock.stop: run flag not found (%s)' % flags)
+    flag = 'self.' + flags[0]
+    seen = 0
+    for m in clock.methods.values():
+        cfg = A.cfg(m)
+        for n in cfg.nodes:
+            for c in n.calls():
+                if not (isinstance(c.func, ast.Attribute) and c.func.attr == 'wait'
+                        and self_attr(c.func.value)):
+                    continue
+                if c.args or c.keywords:
+                    continue            # a wait with a timeout comes back
+                seen += 1
+                facts = A.path_facts(m, n)
+                R.check(m, '%s guarded by %s' % (norm(c), flag),
+                        (flag, True) in facts,
+                        'this wait has no timeout and is reached without a '
+                        'test of %s: stop() only clears the flag and the '
+                        'ticker thread stops firing once it sees that, so a '
+                        'job thread that gets here after the last tick never '
+                        'wakes up - the stopped script hangs and the queue '
+                        'behind it is never served' % flag, line=c.lineno)
+    if seen < 1:
+        raise AnalysisError('Clock: no blocking wait on the tick event found')
+
+
+# ------------------------------------------------------------------ R16.i
+@rule('R16.i', ('C16', 'C03'), 'a parameter list is ended only by something '
+      'that cannot be a parameter: a routine name (the body starts with a '
+      'call), never a variable or macro of the same name', floor=1,
+      decides='any documented name can be used as a parameter, also one that '
+              'is already a global variable or a macro (the parameter hides '
+              'it inside the routine)')
+def r16i(R):
+    from ..const import EnumVal
+    A = R.A
+    f = A.func(PARSE, 'Parser._param_decl')
+    ctx = A.cls('bardolph.parser.context', 'Context')
+    n = 0
+    for c in A.calls_in(f):
+        for t in A.callees(f, c):
+            if t.cls is not ctx:
+                continue
+            if not t.name.startswith(('has_', 'get_', 'in_')) and \
+                    t.name != '__contains__':
+                continue                # add_variable and the like
+            n += 1
+            ok = 'routine' in t.name
+            if not ok and 'typed' in t.name:
+                kinds = [A.try_fold(a, f) for a in c.args[1:]]
+                ok = bool(kinds) and all(
+                    isinstance(k, EnumVal) and k.member == 'ROUTINE' for k in kinds)
+            R.check(f, norm(c), ok,
+                    'the parameter list consults the symbol table for more '
+                    'than routine names (%s): a second or later parameter '
+                    'spelled like an existing variable or macro ends the '
+                    'list, is taken for the start of the body and the '
+                    'script is rejected with "Unknown name"' % t.short,
+                    line=c.lineno)
+    if n < 1:
+        raise AnalysisError('_param_decl: no symbol-table test found')
+
+
+# ------------------------------------------------------------------ R20.p
+WEBAPP = 'web.web_app'
+
+
+def _empty_atoms(var):
+    return {('len(%s) == 0' % var, True), ('0 == len(%s)' % var, True),
+            (var, False), ("%s == ''" % var, True), ("'' == %s" % var, True),
+            ('len(%s) > 0' % var, False), ('len(%s)' % var, False),
+            ('len(%s) != 0' % var, False), ('%s is None' % var, True)}
+
+
+@rule('R20.p', ('C20',), 'a path or title given by the manifest is used as it '
+      'is; the derivation from the file name applies only when none is given',
+      floor=2,
+      decides='a request for path p starts the script the manifest lists for '
+              'p: the key a script is registered under is the listed path '
+              'itself (default paths and titles follow the documented '
+              'derivation)')
+def r20p(R):
+    A = R.A
+    app = A.cls(WEBAPP, 'WebApp')
+    for mname, key in (('get_script_path', 'path'), ('get_script_title', 'title')):
+        m = app.methods[mname]
+        cfg = A.cfg(m)
+        rets = [r for r in cfg.return_nodes() if r.ret_expr is not None]
+        if len(rets) != 1 or not isinstance(rets[0].ret_expr, ast.Name):
+            R.check(m, mname, False, '%s no longer returns one variable' % mname)
+            continue
+        var = rets[0].ret_expr.id
+        stores = [n for n in cfg.nodes if n.kind == 'stmt'
+                  and isinstance(n.ast, (ast.Assign, ast.AugAssign))
+                  and any(isinstance(t, ast.Name) and t.id == var for t in (
+                      n.ast.targets if isinstance(n.ast, ast.Assign)
+                      else [n.ast.target]))]
+        given = [n for n in stores if isinstance(n.ast, ast.Assign)
+                 and isinstance(n.ast.value, ast.Call)
+                 and isinstance(n.ast.value.func, ast.Attribute)
+                 and n.ast.value.func.attr == 'get' and n.ast.value.args
+                 and A.try_fold(n.ast.value.args[0], m) == key]
+        if len(given) != 1:
+            R.check(m, mname, False, 'the manifest\'s %r is not read with '
+                    '.get(%r, <empty>)' % (key, key))
+            continue
+        empties = _empty_atoms(var)
+        # tests of the manifest's own value (nothing re-binds it before)
+        tests = []
+        for t in cfg.nodes:
+            if t.kind != 'cond':
+                continue
+            atom, pol = A.canonical_atom(t.ast)
+            for text, truth in empties:
+                if atom == text:
+                    lab = truth if pol else not truth
+                    if not any(t in cfg.reachable_from([x for x, _l in s_.succs])
+                               for s_ in stores if s_ is not given[0]):
+                        tests.append((t, lab))
+        bad = []
+        for n in stores:
+            if n is given[0]:
+                continue
+            if not any(n.id not in reachable_without_edges(
+                    cfg, cfg.entry, {(t.id, lab)}) for t, lab in tests):
+                bad.append(n)
+        R.check(m, '%s: %d derivation step(s), all under "no %s given"'
+                % (mname, len(stores) - 1, key), not bad,
+                'the %s the manifest gives is modified (%s) although it is '
+                'not empty: the script is registered under / shown with '
+                'another string than the one listed - a request for the '
+                'listed path finds nothing, and an unlisted path can start '
+                'it' % (key, norm(bad[0].ast)[:60] if bad else ''),
+                line=bad[0].ast.lineno if bad else 0)
